@@ -260,6 +260,8 @@ def rules_create_steps(run):
         st = q.enclosing_stmt(c)
         if isinstance(st, ast.Assign) and isinstance(st.targets[0], ast.Name):
             lca_var = st.targets[0].id
+            run.check(strip_cast(st.value) is c, r, fi.short, 'the LCA is used as computed',
+                      'the LCA value is altered (%s): e.g. falling back to the root for a transition leaving the root makes the root be exited and never re-entered' % q.unparse(st.value)[:80], st)
     run.anchor(lca_var, r, 'variable holding the LCA')
     # internal transitions produce a step without state lists
     # ancestor walks
